@@ -4,6 +4,7 @@
 mod rec;
 mod s_bloom;
 mod s_cms;
+mod s_filter;
 mod s_hll;
 
 use rec::{RecBuild, ScriptRng};
@@ -64,6 +65,8 @@ fn make_driver(st: &str, cfg: &HashMap<String, String>) -> Box<dyn Driver> {
             _ => Box::new(s_cms::D::<usize>::default()),
         },
         "hll" => Box::new(s_hll::D::default()),
+        "cuckoo" => Box::new(s_filter::D::<s_filter::Cuckoo>::default()),
+        "qf" => Box::new(s_filter::D::<s_filter::Quot>::default()),
         _ => panic!("unknown structure {}", st),
     }
 }
